@@ -219,6 +219,22 @@ fn process_output<A: Actor>(
     }
 }
 
+/// Gives an external simulator read access to the link state.
+#[cfg(getong_stateright_verif)]
+impl<Msg: Clone, State> StateWrapper<Msg, State> {
+    /// Messages sent but not yet acknowledged: (destination, sequencer, message).
+    pub fn verif_pending(&self) -> Vec<(Id, Sequencer, Msg)> {
+        self.msgs_pending_ack
+            .iter()
+            .map(|((dst, seq), msg)| (*dst, *seq, msg.clone()))
+            .collect()
+    }
+    /// The wrapped actor's state.
+    pub fn verif_wrapped(&self) -> &State {
+        &self.wrapped_state
+    }
+}
+
 #[cfg(test)]
 mod test {
     use crate::actor::ordered_reliable_link::{ActorWrapper, MsgWrapper};
